@@ -145,7 +145,10 @@ critical sections) and `C17_s6` (return with the lock held) were reported by C16
 and `released` were added. `C19_s7` led to the `snprintf` clause of C19 `no-truncation`, placed before
 the table extraction, and to the summary "snprintf terminates a local array" (without it C03
 reported the following `strlen` for a wrong reason). C07 `identity` was added on our own initiative
-(hand-written mutant `load - 1` in `format_int_decimal`). Reports that were
+(hand-written mutant `load - 1` in `format_int_decimal`). `C15_s7` (an idle event machine
+that leaves a queued event where it is) was reported by C13 `ring`, C11 and C14 but counted as a
+legitimate wait by C15 `progress`: an idle step with a non-empty queue and no effect is now a
+violation of C15 as well. Reports that were
 consequences of a wrong model rather than of the change (C01, C10, C15, C20 on `C18_s4`; C04 on
 `C07_s3`; C06 on `C01_s2`; C03 on `C05_s3`) disappeared with those corrections.
 """
